@@ -994,6 +994,9 @@ func (ts *TermStore) FAdd(a, b *Term) *Term {
 	if isDyPair(a, b) {
 		return ts.dyAddLin(ts.toDy(a), ts.toDy(b), false)
 	}
+	if a.id > b.id {
+		a, b = b, a // IEEE addition is commutative: canonical operand order
+	}
 	return ts.intern(&Term{op: OpFAdd, sort: SF64, args: []*Term{a, b}})
 }
 func (ts *TermStore) FNeg(a *Term) *Term {
@@ -1054,6 +1057,9 @@ func (ts *TermStore) FMul(a, b *Term) *Term {
 			unsup("dyadic exactness bound exceeded in * (%g)", r.bnd)
 		}
 		return r
+	}
+	if a.id > b.id {
+		a, b = b, a // IEEE multiplication is commutative: canonical operand order
 	}
 	return ts.intern(&Term{op: OpFMul, sort: SF64, args: []*Term{a, b}})
 }
